@@ -79,6 +79,14 @@ class Table:
     def copy(self, *a, **k):
         return Table(self.items, self.axis)
 
+    @property
+    def dtype(self):
+        return 'float64'
+
+    @property
+    def ndim(self):
+        return 2
+
 
 class ColBuffer(Table):
     """numpy.empty((n, k)): a table whose k columns are filled one by one (table[:, j] = x, or out=table[:, j])."""
@@ -192,6 +200,16 @@ class XyeModel(Model):
             return Table(list(key) if isinstance(key, tuple) else [key], 0)
         raise AnalysisError(f'subscript of {path} at {interp.where(node)}')
 
+    def var_attr(self, interp, v, attr, node):
+        if isinstance(v, SVar) and v.kind != 'dataarray' and attr == 'ndim' and 'dims' not in v.members:
+            return 1  # the columns handed to the writer are the 1-d value arrays of the data array
+        return super().var_attr(interp, v, attr, node)
+
+    def var_index(self, interp, v, key, node):
+        if isinstance(v, SVar) and v.kind != 'dataarray' and isinstance(key, tuple) and len(key) == 2 and slice(None, None, None) in key and None in key:
+            return Table([v], 1 if key[1] is None else 0)  # x[:, newaxis]: one column; x[newaxis, :]: one row
+        return super().var_index(interp, v, key, node)
+
     def _isinstance(self, interp, x, t, node):
         if isinstance(x, OpenedFile):
             return False  # neither a str nor a path (the only classes io/xye.py asks about)
@@ -215,6 +233,13 @@ class XyeModel(Model):
                 return Table(args[0], 1)
             if axis == 0:
                 return Table(args[0], 0)
+        if path in ('numpy.asanyarray', 'numpy.asarray', 'numpy.ascontiguousarray') and args and isinstance(args[0], SVar | Table):
+            return args[0]
+        if path == 'numpy.result_type':
+            return 'float64'
+        if path in ('numpy.concatenate', 'numpy.hstack') and args and isinstance(args[0], list | tuple) and args[0] \
+                and all(isinstance(x, Table) and x.axis == 1 for x in args[0]) and (path == 'numpy.hstack' or kwargs.get('axis') in (1, -1)):
+            return Table([c for x in args[0] for c in x.items], 1)  # tables side by side
         if path == 'numpy.transpose' and args and isinstance(args[0], Table | NdArr):
             return args[0].T
         if path in ('numpy.empty', 'numpy.zeros', 'numpy.empty_like') and args and isinstance(args[0], tuple) and len(args[0]) == 2 \
